@@ -118,6 +118,12 @@ func c05History() []c05Step {
 		{Cmd: w("SET fk c2 EX 20 FIELD speed 7 POINT 0.1 0.1"), Verb: "set", ID: "c2", Prev: "absent", New: "inside"},
 		{Cmd: w("SET fk c3 EX 20 FIELD speed 7 POINT 0.1 0"), Verb: "set", ID: "c3", Prev: "absent", New: "inside"},
 		{Cmd: []string{"@ADVANCE", "21"}, Verb: "expire", ID: "c", IDs: []string{"c", "c2", "c3"}, Prev: "inside", New: "gone"},
+		// an id that holds a string (no position) and then a point outside the area: nothing was inside before
+		{Cmd: w("SET fk s FIELD speed 7 STRING hello"), Verb: "set", ID: "s", Prev: "absent", New: "outside", Loose: true},
+		set("s", right, "absent", "outside", false),
+		{Cmd: w("SET fk s FIELD speed 7 STRING again"), Verb: "set", ID: "s", Prev: "outside", New: "outside", Loose: true},
+		set("s", left2, "absent", "outside", false),
+		{Cmd: w("DEL fk s"), Verb: "del", ID: "s", Prev: "outside", New: "gone"},
 		set("d", in1, "absent", "inside", false),
 		{Cmd: w("DROP fk"), Verb: "drop", Prev: "inside", New: "gone"},
 	}
@@ -357,7 +363,7 @@ func c05RunConfig(job *Job, res *Result, cfg c05Config) {
 					pm := c05Parse(raw)
 					gots = append(gots, pm.String())
 					// each SET/FSET message carries the object's current id, geometry and fields
-					if pm.Cmd == "set" || pm.Cmd == "fset" {
+					if (pm.Cmd == "set" || pm.Cmd == "fset") && !st.Loose {
 						cur := c.Do("GET", "fk", st.ID, "WITHFIELDS")
 						if len(cur.A) > 0 && !strings.Contains(raw, `"object":`+cur.A[0].S) {
 							viol("payload:object", fmt.Sprintf("step %d %v: %s message does not carry the current geometry %s: %s", si, st.Cmd, recv, cur.A[0].S, vclip(raw, 300)))
